@@ -548,6 +548,12 @@ def length(R):
                 kinds.append('7bit')
             elif isinstance(v, ast.Call) and (struct_format(R, g.ctx, v) or ('', ''))[1] in ('!H', '!Q'):
                 kinds.append(struct_format(R, g.ctx, v)[1])
+            elif isinstance(v, ast.Call) and struct_format(R, g.ctx, v) == ('unpack', '!int'):
+                # int.from_bytes(<k bytes read>, 'big'): the big-endian decode of that many bytes
+                ys_ = [y_ for y_ in walk_no_nested(v) if isinstance(y_, ast.Yield)]
+                k_ = fold(R, ys_[0].value.args[0], g.ctx) if ys_ and isinstance(ys_[0].value, ast.Call) and ys_[0].value.args else None
+                kinds.append({2: '!H', 8: '!Q'}.get(k_, U(v)))
+                ok = ok and k_ in (2, 8)
             else:
                 ok = False
                 kinds.append(U(v))
